@@ -76,7 +76,7 @@ def validator_facts(fb, val):
             # getter <= size - sizeof(Header)
             for x, y, o in ((ln, rn, op), (rn, ln, facts._flip_op(op))):
                 if o in ("<=", "<"):
-                    yy = strip_all_casts(y)
+                    yy = strip_all_casts(facts.expand(val, y))
                     if yy.get("k") == "bin" and yy.get("op") == "-" and strip_all_casts(yy["l"]).get("decl") == sizep and const_value(yy["r"]) is not None:
                         for c in walk(x):
                             if c.get("k") == "call" and "Header::get" in (callee_name(c) or ""):
@@ -269,10 +269,12 @@ def run(ctx):
                     pt = x["cv"]
         typed[cls] = pt
     seen_cases = {}
-    for p in paths.enumerate_paths(cre):
+    def is_mk(e):
+        return any(x.get("k") == "call" and (callee_name(x) or "").startswith("std::make_unique") for x in walk(e))
+    for p in paths.return_rows(fb, cre, is_mk):
         sw = [a for a in p.atoms if a[0] == "switch"]
-        r = p.returns()
-        if not sw or r is None:
+        r = p.ret
+        if not sw:
             continue
         case = sw[0][2]
         vals = [(callee_name(a[3]).rsplit("::", 1)[0], a[2]) for a in p.atoms if a[0] == "truth" and a[3].get("k") == "call" and (callee_name(a[3]) or "").endswith("::isValidPayload")]
